@@ -25,7 +25,7 @@ FORMULAS = [
     "lambda x: c0() + x",         # calls a sibling
 ]
 OP_FIELDS = ("op", "name", "m", "t", "file", "ro", "kind")
-CONC_FIELDS = ("what", "sp", "cn", "f", "val", "key")
+CONC_FIELDS = ("what", "sp", "cn", "f", "val", "key", "stale")
 
 
 def _mx():
@@ -34,9 +34,30 @@ def _mx():
 
 
 def close_all():
+    """Empty the registry between cases.  A library whose registry is inconsistent (what this
+    check is there to detect) may fail to close a model: the registry is then emptied directly,
+    so that one broken case cannot poison the next one."""
     mx = _mx()
-    for m in list(mx.get_models().values()):
-        m.close()
+    try:
+        for m in list(mx.get_models().values()):
+            try:
+                m.close()
+            except Exception:
+                pass
+        left = len(mx.get_models())
+    except Exception:
+        left = 1
+    try:
+        stray_current = mx.cur_model() is not None      # a current model that is not registered
+    except Exception:
+        stray_current = True
+    if left or stray_current:
+        try:
+            from modelx.core import mxsys
+            mxsys.models.clear()
+            mxsys.currentmodel = None
+        except Exception:
+            pass
 
 
 def prepare_files(dirpath):
@@ -154,7 +175,11 @@ class Driver:
         for path, sp in self._spaces(model):
             out.append([path, "space"])
             for cn in sorted(sp.cells):
-                out.append([path + "." + cn, "cells:" + sp.cells[cn].formula.source])
+                try:
+                    src = sp.cells[cn].formula.source
+                except Exception as exc:      # a half-built cells left behind by a failed edit
+                    src = "<unreadable:%s>" % type(exc).__name__
+                out.append([path + "." + cn, "cells:" + src])
             own = sp._own_refs if hasattr(sp, "_own_refs") else {}
             for rn in sorted(own):
                 out.append([path + ":" + rn, "ref:" + self._refrepr(own[rn])])
@@ -165,7 +190,12 @@ class Driver:
         for path, sp in self._spaces(model):
             for cn in sorted(sp.cells):
                 c = sp.cells[cn]
-                for k, v in sorted(dict(c).items(), key=lambda kv: repr(kv[0])):
+                try:
+                    items = sorted(dict(c).items(), key=lambda kv: repr(kv[0]))
+                except Exception:             # (see proj_defs)
+                    out.append(["%s.%s<unreadable>" % (path, cn), -998, 0])
+                    continue
+                for k, v in items:
                     args = k if isinstance(k, tuple) else (k,)
                     try:
                         inp = 1 if c.is_input(*args) else 0
@@ -196,7 +226,10 @@ class Driver:
         out = []
         for path, sp in self._spaces(model):
             for cn in sorted(sp.cells):
-                npar = len(sp.cells[cn].parameters)
+                try:
+                    npar = len(sp.cells[cn].parameters)
+                except Exception:
+                    continue
                 if with_params is None or npar == with_params:
                     out.append((path, cn))
         return out
@@ -205,7 +238,8 @@ class Driver:
         """Fill in the concrete form of an abstract edit (kept in the event, so that a
         replay repeats exactly the same calls)."""
         op = dict(op)
-        for k, d in (("name", ""), ("m", 0), ("t", 0), ("file", 0), ("ro", False), ("kind", "")):
+        for k, d in (("name", ""), ("m", 0), ("t", 0), ("file", 0), ("ro", False), ("kind", ""),
+                     ("stale", False)):
             op.setdefault(k, d)
         if op.get("what"):
             for k, d in (("sp", ""), ("cn", ""), ("f", 0), ("val", 0), ("key", 0)):
@@ -301,8 +335,8 @@ class Driver:
         for path, sp in self._spaces(h):
             for cn in sorted(sp.cells):
                 c = sp.cells[cn]
-                npar = len(c.parameters)
                 try:
+                    npar = len(c.parameters)
                     if npar == 0:
                         c()
                     elif npar == 1:
@@ -332,8 +366,8 @@ class Driver:
                     obj = mx.read_model(self.files[op["file"] - 1], name=op["name"] or None)
                     new = self.idof(obj)
                     self.handles[new] = obj
-            elif h is None or op["m"] not in self.open:
-                res = "nohandle"
+            elif h is None or (op["m"] not in self.open and not (op["stale"] and kind == "close")):
+                res = "nohandle"         # operations are made on open models only ("stale": see run_case)
             elif kind == "rename":
                 if op["ro"]:
                     h.rename(op["name"], rename_old=True)
@@ -445,6 +479,17 @@ def run_case(job):
         else:
             for _ in range(job["nops"]):
                 evs.append(d.do(d.next_random_op()))
+            if job.get("stale_final"):
+                # (known finding KF:C19.StaleHandleCloseDropsNamesake) the LAST operation closes
+                # a model again through the handle of a model that was closed before; in half of
+                # the cases another model is first created under the name that handle reports
+                closed = sorted(set(d.handles) - d.open)
+                if closed:
+                    c = rng.choice(closed)
+                    nm = str(d.handles[c].name)
+                    if nm not in d.registered_names() and rng.random() < 0.5:
+                        evs.append(d.do({"op": "new_model", "name": nm}))
+                    evs.append(d.do({"op": "close", "m": c, "stale": True}))
     finally:
         close_all()
     return {"hdr": hdr, "ev": evs}
